@@ -1,6 +1,95 @@
-(* C29  Connection lifecycle is reported completely and in order.  (placeholder while the proofs are written) *)
-From BT Require Import Base.ListX LL.LLModel LL.LLSpec LL.LLSpecC29.
+(* C29  Connection lifecycle is reported completely and in order.  Statements only; proofs in LL/LLProofsC29.v.
+   Model: LL/LLModel.v (push_event = connection_callbacks<>::...try_push with the result ignored, ring of max_events
+   entries; flush_events = handle_connection_events), specification and monitor: LL/LLSpecC29.v. *)
+From BT Require Import Base.ListX LL.LLModel LL.LLSpec LL.LLSpecC29 LL.LLProofsC29.
+From BT Require gen.GenLL.
 Import ListNotations.
 Local Open Scope N_scope.
-Example C29_placeholder : l_phase (minit29 (mk_cfg true true 500 CprNone true 31 [])) = LIdle.
+
+(* The full statement: for every configuration with connection callbacks and every sequence of operations (connect
+   requests, connection events with any number of any PDUs, missed events, disconnect(), API calls) the lifecycle monitor
+   accepts: per connection  requested ( attempt_timeout | established info* closed ),  each once, nothing unrequested,
+   requested / established / closed reported in the operation in which the link starts / has its first event / ends. *)
+Definition C29_lifecycle_full : Prop := lifecycle_full.
+
+(* It is FALSE of the code as it is: *)
+Theorem C29_lifecycle_refuted : ~ C29_lifecycle_full.
+Proof. exact lifecycle_refuted. Qed.
+Print Assumptions C29_lifecycle_refuted.
+
+(* ... with these three witnesses (each replayed on the implementation: corpus/C29, known findings).
+   1. five callback producing PDUs in one connection event: the ring holds four, ll_connection_closed is dropped *)
+Theorem C29_burst_loses_closed :
+  fst (mrun29 cfg29 (minit29 cfg29) (lrun cfg29 (linit cfg29) witness_burst)) = Bad 3
+  /\ nth_error (lrun cfg29 (linit cfg29) witness_burst) 3
+     = Some (Ev 0 [unknown_rsp 17; unknown_rsp 18; unknown_rsp 19; unknown_rsp 20; terminate_ind],
+             OItems [IPhy 1 1; IAa advertising_access_address advertising_crc_init; IAdv 37;
+                     ICb (EvUnknown 17); ICb (EvUnknown 18); ICb (EvUnknown 19); ICb (EvUnknown 20)]).
+Proof. exact (conj witness_burst_rejected witness_burst_output). Qed.
+(* 2. the same with ONE PDU per connection event: a pending LL_CHANNEL_MAP_IND holds up handle_received_data() until its
+      instant, then all five PDUs are processed in one end_event() *)
+Theorem C29_one_pdu_per_event_loses_closed :
+  fst (mrun29 cfg29 (minit29 cfg29) (lrun cfg29 (linit cfg29) witness_held)) = Bad 3
+  /\ forallb (fun o => match o with Ev _ pdus => Nat.leb (length pdus) 1 | _ => true end) witness_held = true.
+Proof. exact (conj witness_held_rejected witness_held_one_pdu_per_event). Qed.
+(* 3. disconnect() between the connect request and the first connection event: requested, then closed( 0x16 ) - neither
+      established nor attempt_timeout *)
+Theorem C29_early_disconnect_skips_established :
+  fst (mrun29 cfg29 (minit29 cfg29) (lrun cfg29 (linit cfg29) witness_early_disconnect)) = Bad 7
+  /\ flat_map (fun x => match snd x with OItems it => filter (fun i => match i with ICb _ => true | _ => false end) it | _ => [] end)
+              (lrun cfg29 (linit cfg29) witness_early_disconnect)
+     = [ICb (EvRequested (mk_details 24 0 72 150)); ICb (EvClosed 22)].
+Proof. exact (conj witness_early_disconnect_rejected witness_early_disconnect_callbacks). Qed.
+
+(* What does hold, for every configuration with callbacks and every operation sequence of ANY length: if every operation
+   of the history delivers fewer than max_events callbacks (then no try_push can have failed - the ring is drained at the
+   end of every operation), disconnect() is not called between requested and established, and no assert fails
+   (env29, decided on the observed trace), the monitor accepts. What is missing w.r.t. the full statement is exactly this
+   environment hypothesis. *)
+Theorem C29_lifecycle_partial :
+  forall (c : cfg) (ops : list lop),
+    c_cb c = true -> env29 c (minit29 c) (lrun c (linit c) ops) = true -> accepts29 c (lrun c (linit c) ops).
+Proof. exact lifecycle_partial. Qed.
+Print Assumptions C29_lifecycle_partial.
+
+(* one operation: the simulation step of the induction *)
+Theorem C29_step :
+  forall c s m o s' r, c_cb c = true -> RI s m -> lstep c s o = (s', r) -> env_step29 m o r = true ->
+    exists m', mstep29 c m o r = (Ok, m') /\ RI s' m'.
+Proof. exact step29. Qed.
+Print Assumptions C29_step.
+
+(* ---- non-vacuity of the environment: a session with every kind of callback, a burst of two, a remote termination, a
+   connection attempt that times out, a local disconnect *)
+Example C29_env_nonvacuous : env29 cfg29 (minit29 cfg29) (lrun cfg29 (linit cfg29) session29) = true.
+Proof. exact session29_env. Qed.
+Example C29_session_callbacks :
+  flat_map (fun x => match snd x with OItems it => flat_map (fun i => match i with ICb e => [e] | _ => [] end) it | _ => [] end)
+           (lrun cfg29 (linit cfg29) session29)
+  = [EvRequested (mk_details 24 0 72 150); EvEstablished (mk_details 24 0 72 150); EvVersion 9 617 0; EvUnknown 15;
+     EvFeatures [255; 0; 0; 0; 0; 0; 0; 0]; EvRejected 26; EvPhy 0 0; EvClosed 19;
+     EvRequested (mk_details 24 0 72 150); EvAttemptTimeout;
+     EvRequested (mk_details 24 0 72 150); EvEstablished (mk_details 24 0 72 150); EvClosed 22].
+Proof. exact session29_callbacks. Qed.
+
+(* ---- the monitor is not trivially accepting *)
+Example C29_monitor_rejects_closed_twice :
+  fst (mrun29 cfg29 (minit29 cfg29)
+         [(connect29, OItems [ICe 1 2 3 4; ICb (EvRequested (mk_details 24 0 72 150))]); (Ev 0 [], OItems [ICb (EvEstablished (mk_details 24 0 72 150))]);
+          (Ev 0 [], OItems [IAdv 37; ICb (EvClosed 19); ICb (EvClosed 19)])]) = Bad 2.
+Proof. exact monitor29_rejects_closed_twice. Qed.
+Example C29_monitor_rejects_unrequested :
+  fst (mrun29 cfg29 (minit29 cfg29) [(Ev 0 [], OItems [ICb (EvChanged (mk_details 24 0 72 150))])]) = Bad 4.
+Proof. exact monitor29_rejects_unrequested. Qed.
+Example C29_monitor_rejects_established_and_timeout :
+  fst (mrun29 cfg29 (minit29 cfg29)
+         [(connect29, OItems [ICe 1 2 3 4; ICb (EvRequested (mk_details 24 0 72 150))]); (Ev 0 [], OItems [ICb (EvEstablished (mk_details 24 0 72 150))]);
+          (Timeout, OItems [IAdv 37; ICb EvAttemptTimeout])]) = Bad 5.
+Proof. exact monitor29_rejects_established_and_timeout. Qed.
+Example C29_monitor_rejects_missing_requested :
+  fst (mrun29 cfg29 (minit29 cfg29) [(connect29, OItems [IAa 1 2; ICe 1 2 3 4])]) = Bad 6.
+Proof. exact monitor29_rejects_missing_requested. Qed.
+
+(* ---- the constant read from connection_callbacks.hpp on every run *)
+Example C29_ring_size : GenLL.max_events = 4.
 Proof. reflexivity. Qed.
